@@ -13,7 +13,11 @@
   RDM i = direct RDM of the columns of searchlight i,         chunks_partition, floor_points_admissible,
     chunked or not                                              table_rows, rdm_per_center,
                                                                 rdm_columns_order_irrelevant,
-                                                                rdm_euclid_of_searchlight
+                                                                rdm_euclid_of_searchlight,
+                                                                euclid_is_C01_spec (link to C01)
+  the comparisons / constants as written in the source        prefilter_leaves, radius_test_leaf,
+    (regenerated every run into Rsa.Gen.C19; the model          accept_leaf, chunk_limit_leaf,
+    *calls* them, so every theorem above depends on them)       rdm_width_leaf
   one result per centre in centre order, whatever the         parallel_order_independent_partial
     schedule                                                    (joblib itself is a contract: parallel_full)
 -/
@@ -102,7 +106,7 @@ theorem centers_exact (s : Shape) (m : Vox → Bool) (r thr : K) (c : Vox) :
               / (((neighborsSpec s (ctrOf c) r).length : Nat) : K) := by
   have hp := neighborsAlgo_perm_spec s (ctrOf c) r
   simp only [goodCenters, List.mem_filter, mem_allVoxels, Bool.and_eq_true, accept, maskFrac,
-    bne_iff_ne, decide_eq_true_eq, hp.length_eq, hp.countP_eq, ne_eq]
+    bne_iff_ne, decide_eq_true_eq, hp.length_eq, hp.countP_eq, ne_eq, Rsa.Gen.C19.acceptTest]
 
 /-- the same without a division: `threshold · |searchlight| ≤ |searchlight ∩ mask|` -/
 theorem centers_exact_mul (s : Shape) (m : Vox → Bool) (r thr : K) (c : Vox) :
@@ -229,6 +233,47 @@ theorem rdm_euclid_of_searchlight (data : List (List K)) (ev : List Int) (s : Sh
       = calcRdm dEuclid ev (selectCols data ((neighborsSpec s c r).map (ravel s))) :=
   rdm_columns_order_irrelevant dEuclid (fun _ _ a b hp => dEuclid_perm hp a b) data ev _ _
     ((neighborsAlgo_perm_spec s c r).map _)
+
+/-- link to C01: the pair distance used by this property's direct RDM is C01's specification
+    formula `euclidSpec` (about which `Rsa.Props.C01.euclid_algo_eq_spec` proves the library's
+    Gram-matrix algorithm correct), for patterns tabulated over `P` channels -/
+theorem euclid_is_C01_spec (P : Nat) (a b : Nat → K) :
+    dEuclid ((List.range P).map a) ((List.range P).map b) = Rsa.Calc.euclidSpec P a b := by
+  rw [dEuclid_map, Rsa.Calc.euclidSpec, sumTo_eq_list_sum]
+  simp
+
+/-! ### 4b. the decision text regenerated from `util/searchlight.py` (`Rsa.Gen.C19`) -/
+
+/-- the three per-axis comparisons of the source, as regenerated on this run, are the
+    bounding-box tests `|x - c| < r` (each on its own operands) -/
+theorem prefilter_leaves (x c r : K) :
+    (Rsa.Gen.C19.absLtX x c r = true ↔ |x - c| < r) ∧
+    (Rsa.Gen.C19.absLtY x c r = true ↔ |x - c| < r) ∧
+    (Rsa.Gen.C19.absLtZ x c r = true ↔ |x - c| < r) :=
+  ⟨absLtX_iff x c r, absLtY_iff x c r, absLtZ_iff x c r⟩
+
+/-- the radius comparison of the source, applied to the real Euclidean distance `√k`, is the
+    model's root-free test (so `neighborsAlgo` filters with the source's own comparison) -/
+theorem radius_test_leaf (k : Int) (hk : 0 ≤ k) (r : ℝ) :
+    Rsa.Gen.C19.radiusTest (Real.sqrt (k : ℝ)) r = distLt k r := by
+  rw [Bool.eq_iff_iff, distLt_iff_sqrt k hk r]
+  simp [Rsa.Gen.C19.radiusTest]
+
+/-- the acceptance comparison of the source is `threshold ≤ in-mask fraction` -/
+theorem accept_leaf (frac thr : K) : Rsa.Gen.C19.acceptTest frac thr = true ↔ thr ≤ frac := by
+  simp [Rsa.Gen.C19.acceptTest]
+
+/-- the chunking test of the source: more than 1000 centres -/
+theorem chunk_limit_leaf (n : Nat) : Rsa.Gen.C19.chunked n = true ↔ 1000 < n := by
+  simp [Rsa.Gen.C19.chunked]
+
+/-- the width of the pre-allocated table of the chunked branch (`n_conds * (n_conds - 1) // 2`
+    as written in the source) is the length of every directly computed RDM vector, so the
+    row assignment `RDM[chunks, :] = …` is shape-correct for every number of conditions -/
+theorem rdm_width_leaf {F : Type} [Add F] [Sub F] [Mul F] [Div F] [Zero F] [One F] [NatCast F]
+    (d : List F → List F → F) (ev : List Int) (sub : List (List F)) :
+    (calcRdm d ev sub).length = rdmWidth ev := by
+  simp [calcRdm, rdmWidth, Rsa.Gen.C19.rdmWidth, Rsa.pairsOf_length]
 
 /-! ### 5. parallel evaluation -/
 
